@@ -55,18 +55,25 @@ def parse_string(
     # characters that no lexer rule matches must be reported, not dropped
     lexer.addErrorListener(error_listener)
 
-    tree = parser.program()
-
-    if error_handler.has_error() is False:
-        visitor = PFDLTreeVisitor(error_handler)
-        process = visitor.visit(tree)
-
-        semantic_error_checker = SemanticErrorChecker(error_handler, process)
-        semantic_error_checker.validate_process()
+    try:
+        tree = parser.program()
 
         if error_handler.has_error() is False:
-            return (True, process)
-        return (False, process)
+            visitor = PFDLTreeVisitor(error_handler)
+            process = visitor.visit(tree)
+
+            semantic_error_checker = SemanticErrorChecker(error_handler, process)
+            semantic_error_checker.validate_process()
+
+            if error_handler.has_error() is False:
+                return (True, process)
+            return (False, process)
+    except RecursionError:
+        # expressions or struct literals nested deeper than the interpreter can follow:
+        # answer invalid with a message instead of raising
+        error_handler.print_error(
+            "The program is nested too deeply (expressions or Struct literals)", syntax_error=True
+        )
     return (False, None)
 
 
